@@ -16,3 +16,22 @@ namespace pika {
     PIKA_EXPORT char const PIKA_CHECK_VERSION[] = PIKA_PP_STRINGIZE(PIKA_CHECK_VERSION);
     PIKA_EXPORT char const PIKA_CHECK_BOOST_VERSION[] = PIKA_PP_STRINGIZE(PIKA_CHECK_BOOST_VERSION);
 }    // namespace pika
+
+#if defined(PIKA_VERIF)
+# include <pika/config/verif_point.hpp>
+
+# include <atomic>
+
+namespace pika::verif {
+    namespace {
+        std::atomic<hook_fn> hook_{nullptr};
+    }
+
+    hook_fn exchange_hook(hook_fn f) noexcept { return hook_.exchange(f, std::memory_order_acq_rel); }
+
+    void point(char const* site, void const* obj, std::uint64_t a, std::uint64_t b) noexcept
+    {
+        if (hook_fn f = hook_.load(std::memory_order_acquire)) f(site, obj, a, b);
+    }
+}    // namespace pika::verif
+#endif
